@@ -102,6 +102,7 @@ designator(struct scope *s, struct initparser *p)
 {
 	struct type *t;
 	char *name;
+	unsigned long long i;
 
 	p->last = &p->init;
 	p->sub = p->cur;
@@ -112,7 +113,10 @@ designator(struct scope *s, struct initparser *p)
 			if (t->kind != TYPEARRAY)
 				error(&tok.loc, "index designator is only valid for array types");
 			next();
-			p->sub->u.idx = intconstexpr(s, false) * t->base->size;
+			i = intconstexpr(s, false);
+			if (t->base->size && i >= -1ull / t->base->size)
+				error(&tok.loc, "index designator is too large");
+			p->sub->u.idx = i * t->base->size;
 			if (p->sub->u.idx >= t->size) {
 				if (!t->incomplete)
 					error(&tok.loc, "index designator is larger than array length");
